@@ -1,5 +1,5 @@
 // C03 (API level): the centroid rotates by 2*pi/steps per step and the orbit closes.
-// The real RFKickMap (linear, and sinusoidal with voltages derived as main() derives them) and DriftMap are chained over three grids
+// The real RFKickMap (linear, and sinusoidal with bunch length, time step and drift derived as main() derives them, at two RF voltages) and DriftMap are chained over three grids
 // exactly as main() chains them (Identity wake, RF kick, drift, Identity Fokker-Planck); the centre of charge is evaluated after every step.
 // Invariants at every state of every trajectory (a = 2*pi/steps, R = rotation q' = q cos - p sin, p' = q sin + p cos):
 //   |c_k - R(k a) c_0| <= (0.6 a + a^2 + 2e-3)|c_0| + 0.02 cell      (exact rotation up to the first-order splitting error)
@@ -18,12 +18,12 @@ static double centroid(const PhaseSpace& ps, unsigned n, double& cq, double& cp,
     return s;
 }
 
-static Traj run(unsigned n, unsigned steps, float sx, float sy, unsigned it, double q0, double p0, double w, bool linear, bool& finite, unsigned nb = 1, unsigned bsel = 0) {
+static Traj run(unsigned n, unsigned steps, float sx, float sy, unsigned it, double q0, double p0, double w, bool linear, bool& finite, unsigned nb = 1, unsigned bsel = 0, double VRF = 1e6) {
     set_size(n, nb);
     const std::vector<float> fill = even_filling(nb);
     const float pq = 12;
     // scales as main(): Meter scale = natural bunch length, ElectronVolt scale = absolute energy spread
-    const double E0 = 1.3e9, sE = 4.7e-4, dE = sE * E0, frev = 9e6, H = 50, VRF = 1e6, fs = 4.5e4;
+    const double E0 = 1.3e9, sE = 4.7e-4, dE = sE * E0, frev = 9e6, H = 50, fs = 4.5e4;
     const double Rb = physcons::c / (2 * M_PI * frev), V0 = physcons::e * std::pow(E0 / physcons::me, 4) / (3 * physcons::epsilon0 * Rb);
     const double Veff = std::sqrt(VRF * VRF - V0 * V0), bl = physcons::c * dE / H / (frev * frev) / Veff * fs, fRF = frev * H;
     const double dt = 1.0 / (fs * steps), revpart = frev * dt;
@@ -40,7 +40,9 @@ static Traj run(unsigned n, unsigned steps, float sx, float sy, unsigned it, dou
     Identity wm(g1, g2, nullptr);
     std::unique_ptr<RFKickMap> rf;
     if (linear) rf.reset(new RFKickMap(g2, g1, angle, (float)fRF, itt, false, nullptr));
-    else rf.reset(new RFKickMap(g2, g1, (float)revpart, (float)Veff, (float)fRF, (float)V0, itt, false, nullptr));
+    // the sinusoidal map is given the RF voltage itself (its parameter is V_RF; it derives the synchronous phase asin(V0/V_RF) from it): the focusing
+    // slope V_RF cos(phi_s) = Veff is what the bunch length, the time step and the drift are derived from
+    else rf.reset(new RFKickMap(g2, g1, (float)revpart, (float)VRF, (float)fRF, (float)V0, itt, false, nullptr));
     std::vector<float> slip = {angle, 0.f, 0.f};
     DriftMap dr(g1, g3, slip, (float)E0, itt, false, nullptr);
     Identity fp(g3, g1, nullptr);
@@ -59,7 +61,7 @@ int main(int argc, char** argv) {
     R.rule = "one evaluation = one trajectory of one synchrotron period through the real RFKickMap+DriftMap chain (invariants checked after every step); "
              "distinct = FNV of case + trajectory; trivial = none (all starts are off-centre)";
     R.sample_every = 200;
-    const bool T = R.thorough();
+    const bool T = true /* the wide lattices run in both tiers */; const bool D = R.thorough(); (void)D;
     std::vector<unsigned> stepss = T ? std::vector<unsigned>{16, 24, 40, 64, 100, 200, 400} : std::vector<unsigned>{24, 64};
     std::vector<unsigned> ns = T ? std::vector<unsigned>{32, 33, 48, 64, 65, 96} : std::vector<unsigned>{32, 33};
     std::vector<float> shifts = T ? std::vector<float>{-3, 0, 2} : std::vector<float>{0, 2};
@@ -67,23 +69,29 @@ int main(int argc, char** argv) {
     const double starts[][2] = {{1.0, 0.0}, {0.0, -1.2}, {-0.8, 0.7}, {0.5, 1.0}, {-1.1, -0.4}, {0.9, -0.9}, {0.0, 0.6}, {-0.6, 0.0}, {0.3, 0.25}};
     const unsigned nstarts = T ? 9 : 3;
     double worst_step = 0, worst_phase = 0, worst_shift = 0;
-    for (unsigned steps : stepss) for (unsigned n : ns) for (unsigned it : its) for (unsigned si = 0; si < nstarts; si++) for (int wi = 0; wi < 2; wi++) for (int model = 0; model < 2; model++) for (unsigned bv = 0; bv < 3; bv++) {
+    for (unsigned steps : stepss) for (unsigned n : ns) for (unsigned it : its) for (unsigned si = 0; si < nstarts; si++) for (int wi = 0; wi < 2; wi++) for (int model = 0; model < 3; model++) for (unsigned bv = 0; bv < 3; bv++) {
         // bunch axis: single bunch; the second of two bunches; the third of three (every bunch of a train rotates like a single bunch)
         const unsigned nb = bv + 1, bsel = bv;
         if (bv && (si != 0 || wi != 0)) continue;
         const bool linear = model == 0;
-        const double scale = linear ? 1.0 : 0.25;     // small amplitudes for the sinusoidal model
-        const double q0 = starts[si][0] * scale, p0 = starts[si][1] * scale, w = wi ? 0.9 : 0.6;
-        std::string kase = mcx::Desc()("steps", steps)("n", n)("it", it)("start", si)("width", wi)("rf", linear ? "linear" : "sin")("bunch", std::to_string(bsel) + "of" + std::to_string(nb)).str();
+        // model 2: sinusoidal RF with a voltage close to the radiation loss per turn (45.5 kV for this ring): synchronous phase 0.23 rad instead of 0.05
+        // (lower still, the curvature of the voltage over the width of the blob moves the centre of the rotation by more than the tolerance: not a small bunch any more)
+        const double VRF = model == 2 ? 2e5 : 1e6;
+        if (model == 2 && (bv || wi || it < 3)) continue;   // (linear interpolation widens the blob within the period; the low-voltage case needs the bunch to stay short)
+        // small amplitudes for the sinusoidal model; at the low voltage the bunch is longer in RF phase (0.1 rad per natural bunch length) and the curvature
+        // term tan(phi_s) phi^2/2 larger: "small" is 0.15 natural units there
+        const double scale = linear ? 1.0 : model == 2 ? 0.15 : 0.25;
+        const double q0 = starts[si][0] * scale, p0 = starts[si][1] * scale, w = model == 2 ? 0.35 : wi ? 0.9 : 0.6;   // low voltage: a short bunch (the curvature of the voltage over the blob shifts the centre of rotation by (V0/Veff) x phase-per-length x <q^2>/2)
+        std::string kase = mcx::Desc()("steps", steps)("n", n)("it", it)("start", si)("width", wi)("rf", linear ? "linear" : model == 2 ? "sin-lowV" : "sin")("bunch", std::to_string(bsel) + "of" + std::to_string(nb)).str();
         if (!R.mine(kase)) continue;
         if (R.out_of_time()) { R.not_completed = kase; goto done; }
         const double a = 2 * M_PI / steps, dq = 12.0 / (n - 1);
         Traj ref; bool have_ref = false;
         for (float sx : shifts) for (float sy : shifts) {
-            bool fin; Traj t = run(n, steps, sx, sy, it, q0, p0, w, linear, fin, nb, bsel);
+            bool fin; Traj t = run(n, steps, sx, sy, it, q0, p0, w, linear, fin, nb, bsel, VRF);
             const std::string sub = kase + " shift=" + mcx::fstr(sx) + "," + mcx::fstr(sy);
             R.eval(sub, mcx::fnv(t.q.data(), 8 * t.q.size(), mcx::fnv(t.p.data(), 8 * t.p.size(), mcx::fnvs(sub))), false);
-            const std::string key = std::string("C03/") + (linear ? "linear" : "sin") + (bv ? "/bunch>0" : "") + ((sx != 0 || sy != 0) ? (sx != sy ? "/shifted-unequal" : "/shifted-equal") : "/centred");
+            const std::string key = std::string("C03/") + (linear ? "linear" : model == 2 ? "sin-lowV" : "sin") + (bv ? "/bunch>0" : "") + ((sx != 0 || sy != 0) ? (sx != sy ? "/shifted-unequal" : "/shifted-equal") : "/centred");
             if (!fin) { R.violate(key + "/non-finite", kase, "centroid not finite, shift " + mcx::fstr(sx) + "," + mcx::fstr(sy)); continue; }
             const double c0q = t.q[0], c0p = t.p[0], r0 = std::hypot(c0q, c0p);
             // the statement is about distributions that stay inside the grid: low interpolation orders smear the charge until it reaches the border;
@@ -126,6 +134,6 @@ int main(int argc, char** argv) {
     }
 done:
     R.numbers["worst_step_error_over_tol"] = worst_step; R.numbers["worst_phase_error_over_tol"] = worst_phase; R.numbers["worst_shift_dependence_over_tol"] = worst_shift;
-    R.bound_done("steps x n x it x starts x 2 widths x {linear, sinusoidal} x {single bunch, 2nd of 2, 3rd of 3} x all (sx,sy) grid shifts, every step of one period");
+    R.bound_done("steps x n x it x starts x 2 widths x {linear, sinusoidal, sinusoidal at V_RF = 4.4 V0} x {single bunch, 2nd of 2, 3rd of 3} x all (sx,sy) grid shifts, every step of one period");
     return R.finish();
 }
